@@ -1809,6 +1809,11 @@ pub struct ConnectionH2<Front: SocketHandler> {
     refuse_count_window: u32,
     /// Start timestamp for the current back-pressure window.
     refuse_window_start: Instant,
+    /// Set when the peer's first SETTINGS frame has been applied. Until then
+    /// `peer_settings` holds defaults, not limits the peer agreed to: the
+    /// router must not multiplex further requests onto a backend connection
+    /// whose SETTINGS_MAX_CONCURRENT_STREAMS is still unknown (RFC 9113 §5.1.2).
+    pub peer_settings_received: bool,
     /// Backend connections (`Position::Client`): set once the one-off
     /// WINDOW_UPDATE that enlarges our connection-level receive window from the
     /// RFC default to `connection_config.initial_connection_window` has been
@@ -1969,6 +1974,7 @@ impl<Front: SocketHandler> ConnectionH2<Front> {
             stream_idle_timeout,
             refuse_count_window: 0,
             refuse_window_start: Instant::now(),
+            peer_settings_received: false,
             connection_window_enlarged: false,
             mcs_backpressure_applied: false,
         })
@@ -5821,6 +5827,7 @@ impl<Front: SocketHandler> ConnectionH2<Front> {
         }
 
         self.attribute_bytes_to_overhead();
+        self.peer_settings_received = true;
 
         // Enlarge the connection-level receive window for backend H2
         // connections (Position::Client). The server side does this in
